@@ -121,6 +121,51 @@ let ggm_run_string k0 k1 s0 s1 (ops : gop list) : string =
       | GEval _, None, None -> "E:?") ops in
   String.concat " " outs ^ " | " ^ state_string !g
 
+(* ---- group oracle: a child process wrapping curve25519-dalek (verif-harness oracle) ---- *)
+let oracle : (in_channel * out_channel) option ref = ref None
+let oracle_chan () =
+  match !oracle with
+  | Some c -> c
+  | None ->
+      let exe = try Sys.getenv "VERIF_HARNESS" with Not_found ->
+        Filename.concat (Filename.dirname Sys.executable_name) "../harness/target/debug/verif-harness" in
+      let c = Unix.open_process (Filename.quote exe ^ " oracle") in
+      oracle := Some c; c
+let ask (q : string) : string =
+  let ic, oc = oracle_chan () in
+  output_string oc q; output_char oc '\n'; flush oc;
+  input_line ic
+let z_hex (z : z) : string = hex_of_bytes (sc_to_bytes z)
+let grp : grp = {
+  g_valid = (fun p -> ask ("valid " ^ hex_of_bytes p) = "1");
+  g_mul = (fun k p -> bytes_of_hex (ask ("mul " ^ z_hex k ^ " " ^ hex_of_bytes p)));
+  g_add = (fun p q -> bytes_of_hex (ask ("add " ^ hex_of_bytes p ^ " " ^ hex_of_bytes q)));
+  g_base = bytes_of_hex "e2f2ae0a6abc4e71a884a961c500515f58e30b6aa582dd8db6a65945e08d2d76";
+  g_id = bytes_of_hex "0000000000000000000000000000000000000000000000000000000000000000";
+  g_hash = (fun u -> bytes_of_hex (ask ("hash " ^ hex_of_bytes u)));
+}
+let z_of_hex (h : string) : z = Z.of_N (le_of_bytes (bytes_of_hex h))
+let perr_name = function
+  | BadTag -> "BadTag" | PNoPrefixFound -> "NoPrefixFound" | PAlreadyPunctured -> "AlreadyPunctured"
+  | PBadInputLength -> "BadInputLength" | TooBig -> "TooBig" | Bincode -> "Bincode" | BadPointEncoding -> "BadPointEncoding"
+let proof_hex = function None -> "-" | Some p -> hex_of_bytes (proof_to_bincode p)
+let sop_of_string (t : string) : sop =
+  match String.split_on_char ':' t with
+  | [ "e"; i; md; p; v; r ] -> SEval (nat_of_int (int_of_string i), n_of_int (int_of_string md), bytes_of_hex p, v = "v", (if r = "-" then Z0 else z_of_hex r))
+  | [ "p"; i; md ] -> SPunct (nat_of_int (int_of_string i), n_of_int (int_of_string md))
+  | [ "c"; i ] -> SClone (nat_of_int (int_of_string i))
+  | [ "y"; a; b ] -> SSync (nat_of_int (int_of_string a), nat_of_int (int_of_string b))
+  | _ -> failwith "bad server op"
+let sres_string = function
+  | REval (Inr (o, pr)) -> "ok:" ^ hex_of_bytes o ^ ":" ^ proof_hex pr
+  | REval (Inl e) -> "E:" ^ perr_name e
+  | RPunct None -> "ok"
+  | RPunct (Some e) -> "E:" ^ perr_name e
+  | RDone -> "done"
+  | RBad -> "bad-instance"
+let server_string (s : server) : string =
+  Printf.sprintf "{pk=%s ggm=%s}" (hex_of_bytes (pk_to_bincode s.sv_pk)) (state_string s.sv_ggm)
+
 let dispatch (w : string list) : string =
   match w with
   (* ---------------- field ---------------- *)
@@ -253,6 +298,25 @@ let dispatch (w : string list) : string =
           "ok " ^ String.concat " " (List.sort compare items)
       | Err -> "err"
       | Panic -> "panic")
+  | "srv.run" :: sk :: k0 :: k1 :: s0 :: s1 :: mds :: ops -> (
+      let mdl = List.map (fun b -> b) (bytes_of_hex mds) in
+      match pp_server_new grp (z_of_hex sk) (bytes_of_hex k0) (bytes_of_hex k1) (bytes_of_hex s0) (bytes_of_hex s1) mdl with
+      | Inl e -> "new-E:" ^ perr_name e
+      | Inr srv ->
+          let w, rs = srv_run grp [ srv ] (List.map sop_of_string ops) in
+          String.concat " " (List.map sres_string rs) ^ " | " ^ String.concat " " (List.map server_string w))
+  | [ "cl.blind"; input; r ] -> hex_of_bytes (pp_client_blind grp (bytes_of_hex input) (z_of_hex r))
+  | [ "cl.h2g"; input ] -> hex_of_bytes (pp_hash_to_group grp (bytes_of_hex input))
+  | [ "cl.unblind"; p; r ] -> out_bytes (client_unblind grp (bytes_of_hex p) (z_of_hex r))
+  | [ "cl.finalize"; input; md; p ] -> hex_of_bytes (pp_client_finalize (bytes_of_hex input) (n_of_int (int_of_string md)) (bytes_of_hex p))
+  | [ "cl.verify"; pkb; inp; outp; pr; md ] -> (
+      match pk_from_bincode (bytes_of_hex pkb) with
+      | Inl e -> "pk-E:" ^ perr_name e
+      | Inr pk ->
+          let prf = if pr = "-" then None else (match proof_from_bincode (bytes_of_hex pr) with Inr p -> Some p | Inl _ -> failwith "bad proof in case line") in
+          if pp_client_verify grp pk (bytes_of_hex inp) (bytes_of_hex outp) prf (n_of_int (int_of_string md)) then "true" else "false")
+  | [ "pk.load"; b ] -> ( match pk_from_bincode (bytes_of_hex b) with Inr pk -> "ok " ^ hex_of_bytes (pk_to_bincode pk) | Inl e -> "E:" ^ perr_name e)
+  | [ "proof.load"; b ] -> ( match proof_from_bincode (bytes_of_hex b) with Inr p -> "ok " ^ hex_of_bytes (proof_to_bincode p) | Inl e -> "E:" ^ perr_name e)
   | "ggm.run" :: k0 :: k1 :: s0 :: s1 :: ops ->
       ggm_run_string (bytes_of_hex k0) (bytes_of_hex k1) (bytes_of_hex s0) (bytes_of_hex s1) (List.map gop_of_string ops)
   | _ -> failwith "unknown command"
